@@ -48,7 +48,38 @@ func genC17(r *rand.Rand, n int, emit func(string)) {
 			// ProcessOperation
 			b := canon
 			plabel := "process/create"
-			switch r.Intn(6) {
+			switch r.Intn(10) {
+			case 8:
+				// explicit null for members that are optional
+				mod := deepCopy(req).(map[string]interface{})
+				sd := mod["suffixData"].(map[string]interface{})
+				for _, k := range []string{"anchorOrigin", "type"} {
+					if _, ok := sd[k]; !ok && r.Intn(2) == 0 {
+						sd[k] = nil
+					}
+				}
+				b = opb.Canon(mod)
+				plabel = "process/null-optional"
+			case 9:
+				// member names in another case (encoding/json matches them case-insensitively)
+				mod := deepCopy(req).(map[string]interface{})
+				k := pick(r, []string{"delta", "suffixData", "type"})
+				v := mod[k]
+				delete(mod, k)
+				mod[strings.ToUpper(k[:1])+k[1:]] = v
+				b = opb.Canon(mod)
+				plabel = "process/member-name-case"
+			case 6, 7:
+				// members the request structs do not know (encoding/json drops them)
+				mod := deepCopy(req).(map[string]interface{})
+				where := pick(r, []string{"top", "delta", "suffixData"})
+				if where == "top" {
+					mod["extra"] = pick(r, []interface{}{"x", true, []interface{}{}})
+				} else {
+					mod[where].(map[string]interface{})["extra"] = "x"
+				}
+				b = opb.Canon(mod)
+				plabel = "process/unknown-member-" + where
 			case 0:
 				d, _, op := oneOp(r, 18, pick(r, []string{"update", "recover", "deactivate"}), opb.Window{})
 				_ = d
